@@ -92,6 +92,12 @@ theorem C14_grid_reread (h : Heap) (w : WF h) (evs : List Ev) (r : Nat) (key : L
     (e : gridResult h r key = some l) : gridResult (run h evs) r key = some l :=
   gridResult_stable (Stable.of_extends (run_extends h w evs).1 (run_src h evs)) r key e
 
+/-- the same for `variable[idx]` — an array, a map read on its own, or `grid[key]` with `output_grid`
+    off (`grid.array[key]`): the received array is the same after any history as before it -/
+theorem C14_var_reread (h : Heap) (w : WF h) (evs : List Ev) (r : Nat) (idx : List Idx) (ax : List (Bool × List Nat))
+    (e : varResult h r idx = some ax) : varResult (run h evs) r idx = some ax :=
+  varResult_stable (Stable.of_extends (run_extends h w evs).1 (run_src h evs)) r idx e
+
 /-- the objects `grid[key]` creates are exactly those children followed by the new grid that refers to
     them (`_output_grid` on, as `__shallowcopy__` builds it); nothing else is allocated or written -/
 theorem C14_grid_read_allocates (h : Heap) (r : Nat) (key : List Idx) (l : List Obj)
@@ -137,6 +143,8 @@ example : gridResult exGrid 10 [Idx.sl ⟨none, none, some 2⟩, Idx.ell]
     combine, fixSlice, expandEll, zipFix, fixAxis, fixSl, toSlice, combine1, PSlice.all, orElse, expandKey,
     dropTrailingAll, npSlices, sel, npBound, Except.map]
   try decide
+example : varResult ⟨[], [.var ['x'] (.vals [(false, [0, 2, 4])])], [], []⟩ 0 [Idx.sl ⟨some 1, none, none⟩]
+    = some [(false, [2, 4])] := by decide
 -- a grid already received (no proxy behind it), indexed locally by numpy: `[0]` drops the first axis
 example : gridResult ⟨[], [.var ['g'] (.vals [(false, [0, 1]), (false, [0, 1, 2])]), .var ['x'] (.vals [(false, [0, 1])]),
       .var ['y'] (.vals [(false, [0, 1, 2])]), .grid [0, 1, 2] true], [], []⟩ 3 [Idx.int 1]
